@@ -159,7 +159,7 @@ def run_property(pid, tier="quick", seed=0, only=None, verbose=False):
     t0 = time.time()
     sys.path.insert(0, VERIF)
     mod = importlib.import_module(f"contracts.{pid.lower()}")
-    contracts = [c for c in getattr(mod, "CONTRACTS", []) if only is None or re.search(only, c.id)]
+    contracts = [c for c in getattr(mod, "CONTRACTS", []) if (only is None or re.search(only, c.id)) and (tier == "thorough" or getattr(c, "tier", "quick") == "quick" or only)]
     lemmas = [l for l in getattr(mod, "LEMMAS", []) if only is None or re.search(only, l.id)]
     finites = [f for f in getattr(mod, "FINITE", []) if only is None or re.search(only, f.id)]
     bounded = [b for b in getattr(mod, "BOUNDED", []) if only is None or re.search(only, b.id)]
